@@ -45,7 +45,7 @@ def trades_of(t):
 
 def trades_of_root(root):
     """(sec full name, owner full name, ticker, q, custom price, multiplier, date label)"""
-    return [(n.full_name, n.parent.full_name, n.name, q, price, float(n.multiplier), when) for n, q, price, when in _spy["log"] if n.root is root]
+    return [(rt.node_path(n), rt.node_path(n.parent), n.name, q, price, float(n.multiplier), when) for n, q, price, when in _spy["log"] if n.root is root]
 
 
 def clear_trades():
